@@ -155,6 +155,18 @@ def step (s : St) (ws : List String) : St × List String :=
       let (g, ok) := reorder s.g c l
       ({ s with g }, if ok then [] else ["bad-obs"])
     | _, _ => (s, ["bad-op"])
+  | ["t-insert", a, b] =>
+    match a.toNat?, b.toNat? with
+    | some a, some b =>
+      let (g, ok) := restoreInsert s.g a b
+      ({ s with g }, if ok then [] else ["bad-obs"])
+    | _, _ => (s, ["bad-op"])
+  | ["t-move", o, n] =>
+    match o.toNat?, n.toNat? with
+    | some o, some n =>
+      let (g, ok) := moveChan s.g o n
+      ({ s with g }, if ok then [] else ["bad-obs"])
+    | _, _ => (s, ["bad-op"])
   | "t-dagbegin" :: cut =>
     match nats cut with
     | some cut => ({ s with saved := savedOf s.g cut }, [])
